@@ -43,7 +43,7 @@ def find(p, kind):
     return [i for i, l in enumerate(p.lines) if l.kind == kind]
 
 
-def variants(p, guard, r):
+def variants(p, guard, r, far=0):
     """(variant name, prog, expected code or None for 'no protection diagnostic', or 'ANY')"""
     yield "correct", p, None
     other = "OTHER_" + guard if len(guard) < 30 else "ZZ_H"
@@ -72,6 +72,31 @@ def variants(p, guard, r):
     q.lines[i0:i0] = [Line("proto", [("int", "type"), TAB(1), ("ft_before", "id:func"), ("(", "punct"), ("void", "type"),
                                      (")", "punct"), (";", "punct")]), Line("blank", [])]
     yield "declaration_before", q, "HEADER_PROT_ALL"
+    # two faults at once: each keeps its own diagnostic
+    q2 = q.copy()
+    j0, j1 = find(q2, "pp_ifndef")[0], find(q2, "pp_define_guard")[0]
+    q2.lines[j0].segs[-1] = (other, "id:guard")
+    q2.lines[j1].segs[-1] = (other, "id:guard")
+    yield "other_symbol+declaration_before", q2, ["HEADER_PROT_NAME", "HEADER_PROT_ALL"]
+    q2 = q.copy()
+    q2.lines += [Line("blank", []), Line("proto", [("int", "type"), TAB(1), ("ft_after", "id:func"), ("(", "punct"),
+                                                    ("void", "type"), (")", "punct"), (";", "punct")])]
+    yield "declaration_before+declaration_after", q2, ["HEADER_PROT_ALL", "HEADER_PROT_ALL_AF"]
+    if guard.lower() != guard:
+        q2 = q.copy()
+        q2.lines[j0].segs[-1] = (guard.lower(), "id:guard")
+        q2.lines[j1].segs[-1] = (guard.lower(), "id:guard")
+        yield "lower_case+declaration_before", q2, ["HEADER_PROT_UPPER", "HEADER_PROT_ALL"]
+    if far:
+        # the same with more than a thousand comment lines and empty lines between the declaration and the guard
+        q = q.copy()
+        j = find(q, "pp_ifndef")[0]
+        q.lines[j:j] = [Line("comment" if k % 7 else "blank", [("// filler %d" % k, "comment:line")] if k % 7 else []) for k in range(far)]
+        yield "declaration_far_before", q, "HEADER_PROT_ALL"
+        q = p.copy()
+        q.lines += [Line("comment" if k % 7 else "blank", [("/* filler %d */" % k, "comment:block")] if k % 7 else []) for k in range(1, far)]
+        q.lines += [Line("proto", [("int", "type"), TAB(1), ("ft_after", "id:func"), ("(", "punct"), ("void", "type"), (")", "punct"), (";", "punct")])]
+        yield "declaration_far_after", q, "HEADER_PROT_ALL_AF"
     q = p.copy()
     q.lines += [Line("blank", []), Line("proto", [("int", "type"), TAB(1), ("ft_after", "id:func"), ("(", "punct"),
                                                    ("void", "type"), (")", "punct"), (";", "punct")])]
@@ -113,7 +138,8 @@ def run_shard(spec):
         if setting == 2:
             p = with_directives(p, r)
         added = ["CheckDefine"] if setting == 3 else None
-        for vname, q, expect in variants(p, guard, r):
+        far = [0, 1100, 0, 0, 520, 0, 0, 2300][k % 8] if k < 16 or spec["n"] > 100 else 0
+        for vname, q, expect in variants(p, guard, r, far=far):
             for ext in (".h", ".c"):
                 fname = name[:-2] + ext
                 src = q.text()
@@ -129,7 +155,8 @@ def run_shard(spec):
                     continue
                 got = sorted(set(d[0] for d in run.diags if d[0] in PROT))
                 want = expect if ext == ".h" else None
-                ok = (not got) if want is None else (bool(got) if want == "ANY" else want in got)
+                ok = (not got) if want is None else (bool(got) if want == "ANY" else
+                                                      (all(w in got for w in want) if isinstance(want, list) else want in got))
                 if not ok:
                     sh.violation("protection_codes", (vname, ext, str(want)), case,
                                  {"variant": vname, "ext": ext, "expected": want, "got": got, "n_got": len(got), "name": fname})
@@ -143,7 +170,8 @@ def replay(case, sh):
     got = sorted(set(d[0] for d in run.diags if d[0] in PROT)) if run.outcome == "ok" else None
     want = case.get("expect")
     ext = "." + case["name"].rsplit(".", 1)[-1]
-    ok = got is not None and ((not got) if want is None else (bool(got) if want == "ANY" else want in got))
+    ok = got is not None and ((not got) if want is None else (bool(got) if want == "ANY" else
+                                                              (all(w in got for w in want) if isinstance(want, list) else want in got)))
     if not ok:
         sh.violation("protection_codes", (case.get("variant"), ext, str(want)), case,
                      {"variant": case.get("variant"), "ext": ext, "expected": want, "got": got, "n_got": len(got or [])})
